@@ -49,6 +49,7 @@ type Contract struct {
 	IsFuncT   bool // function-type contract
 	ParamNames []string // for interface / functype contracts: names given in the header
 	Ghost     []GhostUpd
+	CallReq   map[string][]Clause // call-site specific preconditions, by callee name
 	Timeout   int
 	Nonlinear bool
 	Quant     bool
@@ -486,6 +487,22 @@ func parseSpecFile(path, pkg string) (*SpecFile, error) {
 				return nil, err
 			}
 			cur.LoopInv[k] = append(cur.LoopInv[k], cl)
+		case "callsite":
+			// callsite <callee> requires [props] <expr>
+			fs := strings.Fields(p.text)
+			if cur == nil || len(fs) < 3 || fs[1] != "requires" {
+				return nil, fmt.Errorf("%s:%d: callsite <callee> requires <expr>", path, p.line)
+			}
+			pp := p
+			pp.text = strings.TrimSpace(p.text[strings.Index(p.text, "requires")+len("requires"):])
+			if cur.CallReq == nil {
+				cur.CallReq = map[string][]Clause{}
+			}
+			cl, err := mkClause(pp, len(cur.CallReq[fs[0]])+1)
+			if err != nil {
+				return nil, err
+			}
+			cur.CallReq[fs[0]] = append(cur.CallReq[fs[0]], cl)
 		case "safety":
 			if cur != nil {
 				cur.Safety = p.text == "on"
